@@ -82,6 +82,21 @@ def run(ctx):
             lines.append("1 %s %s" % (mat_line(transpose(M, m, n), n, m), w))
         else:
             lines.append("0 %s %s" % (mat_line(M, m, n), w))
+    # perturbed structured matrices: one to three flipped entries in M(G,T) of glued graphs - mostly non-graphic, so the
+    # column-addition algorithm has to REJECT a column inside a rich decomposition (every path/typing rule on its "no" side);
+    # a wrong "yes" is caught by its certificate (code 93), a "no" is compared with the oracle up to 4 rows
+    for _ in range(30000 if q else 300000):
+        nv, E = gen.glued_graph(rng, 2 + rng.below(9))
+        M, w = gen.graph_instance(rng, nv, len(E), False, loops=False, edges=E)
+        if not M or not M[0]:
+            continue
+        for _k in range(1 + rng.below(3)):
+            M = gen.corrupt(rng, M, (0, 1))
+        m, n = len(M), len(M[0])
+        if rng.below(2):
+            lines.append("1 %s 0" % mat_line(transpose(M, m, n), n, m))
+        else:
+            lines.append("0 %s 0" % mat_line(M, m, n))
     cores = [gen.F7, gen.F7T, gen.K33_DUAL]
     for _ in range(300 if q else 3000):
         core = rng.choice(cores)
